@@ -206,6 +206,58 @@ def _comprehension_bound(e) -> Set[str]:
     return out
 
 
+def _attr_writers(cls, attr: str):
+    """methods of the class (own and inherited are not followed: own only) that write self.<attr> after construction"""
+    out = []
+    for name, m in cls.methods.items():
+        if name == "__init__":
+            continue
+        hit = None
+        for n in ast.walk(m.node):
+            tgt = []
+            if isinstance(n, ast.Assign):
+                tgt = n.targets
+            elif isinstance(n, (ast.AugAssign, ast.AnnAssign)):
+                tgt = [n.target]
+            elif isinstance(n, ast.Delete):
+                tgt = n.targets
+            for t in tgt:
+                while isinstance(t, ast.Subscript):
+                    t = t.value
+                if isinstance(t, ast.Attribute) and isinstance(t.value, ast.Name) and t.value.id == "self" and t.attr == attr:
+                    hit = n
+            if isinstance(n, ast.Call) and isinstance(n.func, ast.Attribute) and n.func.attr in MUTATORS | {"pop", "popitem", "clear", "remove", "discard"}:
+                t = n.func.value
+                if isinstance(t, ast.Attribute) and isinstance(t.value, ast.Name) and t.value.id == "self" and t.attr == attr:
+                    hit = n
+        if hit is not None:
+            out.append((m, hit))
+    return out
+
+
+def classify_state_roots(fi: FuncInfo, site: MemoSite, missing: List[str]):
+    """for missing roots that are attributes of self: (still_missing, unguarded_writers, invalidated)
+    - an attribute nobody writes after __init__ is not an input that can change: dropped
+    - a writer that does not touch the memo table leaves stale entries: reported
+    - when every writer also updates the memo table the consistency of that scheme is outside this rule"""
+    still, unguarded, invalidated = [], [], []
+    cache_attr = site.cache[len("self."):] if site.cache.startswith("self.") else None
+    for r in missing:
+        if not r.startswith("self.") or fi.cls is None or cache_attr is None:
+            still.append(r)
+            continue
+        writers = _attr_writers(fi.cls, r[len("self."):])
+        if not writers:
+            continue
+        cache_writers = {m.qualname for m, _ in _attr_writers(fi.cls, cache_attr)}
+        bad = [(m, n) for m, n in writers if m.qualname not in cache_writers]
+        if bad:
+            unguarded.extend((r, m, n) for m, n in bad)
+        else:
+            invalidated.append((r, [m.short for m, _ in writers]))
+    return still, unguarded, invalidated
+
+
 def check_function(fi: FuncInfo):
     """[(site, value_roots, key_roots, missing)]"""
     res = []
@@ -259,6 +311,16 @@ def check_memo_keys(ctx, prefixes, rule="MEMO-KEY"):
         scanned += 1
         for site, vr, kr, missing in check_function(fi):
             sites += 1
+            missing, unguarded, invalidated = classify_state_roots(fi, site, missing)
+            for r, m, n in unguarded:
+                ctx.fail(rule, m, f"memo table `{site.cache}` of {fi.short} is refreshed when `{r}` changes", f"`{norm(n)[:70]}` changes `{r}`, which the entries of `{site.cache}` (filled by {fi.short}) were computed from, without touching the table: later lookups return entries computed from the old state", n)
+            if invalidated and not missing and not unguarded:
+                from .core import AnchorError
+
+                ctx.anchor_errors.append(AnchorError(fi.short, f"memo table `{site.cache}` depends on mutable state {[r for r, _ in invalidated]}; every writer ({sorted(set(w for _, ws in invalidated for w in ws))}) also updates the table, but whether those updates keep it consistent (re-pointing, deletion) is outside the memo-key rule: undecided"))
+                continue
+            if unguarded and not missing:
+                continue
             ctx.check(
                 not missing,
                 rule,
